@@ -68,9 +68,20 @@ def evaluate(sid, tier, runs, all_props):
     assert wt.startswith("/tmp/"), wt
     sh(f"git -C /repo worktree remove --force {wt}")
     shutil.rmtree(wt, ignore_errors=True)
+    # the change was written against meta["base_commit"]; use /repo HEAD when the patch still
+    # applies there (later fix: commits may touch the same lines), else the base commit
+    base = meta.get("base_commit", "a793921")
     r = sh(f"git -C /repo worktree add --detach {wt} HEAD")
     if r.returncode:
         raise SystemExit(r.stderr)
+    if sh(f"git -C {wt} apply --check {os.path.join(d, 'patch.diff')}").returncode:
+        sh(f"git -C /repo worktree remove --force {wt}")
+        r = sh(f"git -C /repo worktree add --detach {wt} {base}")
+        if r.returncode:
+            raise SystemExit(r.stderr)
+        meta["evaluated_on"] = base + " (patch no longer applies to HEAD)"
+    else:
+        meta["evaluated_on"] = "HEAD"
     res = {}
     try:
         demo = os.path.join(d, "demo.py")
@@ -117,7 +128,7 @@ def evaluate(sid, tier, runs, all_props):
     with open(os.path.join(d, "meta.json"), "w") as f:
         json.dump(meta, f, indent=1)
     own = meta["detection"][meta["property"]]
-    print(f"{sid}: confirmed={meta['confirmed']} {meta['property']}={own['status']} {own['signatures'][:2]}"
+    print(f"{sid}: [{meta['evaluated_on'][:7]}] confirmed={meta['confirmed']} {meta['property']}={own['status']} {own['signatures'][:2]}"
           + "".join(f" {p}={v['status']}" for p, v in meta["detection"].items() if p != meta["property"]))
     return meta
 
